@@ -98,14 +98,15 @@ fn file_word(pid: i32, addr: u64) -> Option<u64> {
 
 pub fn new_line(p: &Prog) -> String {
     let fns: Vec<String> = FNS.iter().map(|(n, _, tys)| {
-        let (a, _) = fn_symbol(p, n).unwrap_or((0, 0));
-        format!("{n}:{a:x}:{}", if tys.is_empty() { "-".to_string() } else { tys.join("+") })
+        let (a, sz) = fn_symbol(p, n).unwrap_or((0, 0));
+        format!("{n}:{a:x}:{sz:x}:{}", if tys.is_empty() { "-".to_string() } else { tys.join("+") })
     }).collect();
+    let (ra, rs) = fn_symbol(p, "record").unwrap_or((0, 0));
     let bytes: Vec<String> = segs(p).iter().map(|(a, n)| {
         let h: String = (*a..a + n).map(|x| format!("{:02x}", p.orig_byte(x).unwrap_or(0))).collect();
         format!("{a:x}:{h}")
     }).collect();
-    format!("C16 new {} {:x} {:x} {} {}", p.name, p.base, p.entry, fns.join(","), bytes.join(","))
+    format!("C16 new {} {:x} {:x} {} {ra:x}:{rs:x} {}", p.name, p.base, p.entry, fns.join(","), bytes.join(","))
 }
 
 /// stop candidates: executed instruction addresses inside the program's own functions and inside the callables it runs itself
@@ -419,6 +420,9 @@ pub fn session(lines: &[String], emit: &mut dyn FnMut(String)) {
                 let req_line = format!("C16 call {name} {lits} {pc:x} {} {:x} {} {}", enc_list(&regs0, |v| format!("{v:x}")), tr.page, hexlist(&tr.dorder), hexlist(&tr.eorder));
                 if fired { after_fault = true; }
 
+                let reached_cont = tr.digest.split(',').any(|x| x == "C");
+                let callee_ranges: Vec<(u64, u64)> = fn_symbol(&p, name).into_iter().chain(fn_symbol(&p, "record")).collect();
+                let through_pc = reached_cont && callee_ranges.iter().any(|(a, n)| pc + 2 > *a && pc < a + n);
                 // ================= oracles =================
                 let what_call = format!("`call {name} {}` at {pc:x} ({fn_here}){}", lits_v.iter().map(|l| l.to_string()).collect::<Vec<_>>().join(" "),
                     if fired { " with an injected ptrace failure" } else { "" });
@@ -475,14 +479,22 @@ pub fn session(lines: &[String], emit: &mut dyn FnMut(String)) {
                     (Some(_), c) if !fired && c != "panic" => {
                         oracle(emit, "well-formed-call-refused", format!("{what_call} answered {c}"));
                     }
-                    (_, "panic") if !fired => { state_ok = false; oracle(emit, "call-panicked", what_call.clone()); }
+                    (_, "panic") if !fired && !through_pc => { state_ok = false; oracle(emit, "call-panicked", what_call.clone()); }
                     _ => {}
                 }
                 if fired { state_ok = state_ok && cls != "panic"; }
+                // ---- does the callee pass through the stop pc, where the debugger's `jmp *%rax` patch is still in place?
+                // (decided from the ELF symbol ranges: the callable's own code and `record`, which every callable runs)
+                if through_pc {
+                    state_ok = false; after_fault = true;
+                    oracle(emit, "callee-runs-into-trampoline-patch-at-stop-pc", format!("{what_call} answered {cls}: the callee executes the instruction at the stop pc, where `jmp *%rax` is still patched in (post state {post})"));
+                    emit(format!("{req_line}\twild"));
+                    continue;
+                }
                 emit(format!("{req_line}\t{cls} t={} post={post}", tr.digest));
             }
             [_, "finish"] => {
-                if started && !exited {
+                if started && !exited && state_ok {
                     for a in bset.clone() { let _ = live.dbg.remove_breakpoint(Address::Relocated(RelocatedAddress::from(base + a))); }
                     let r = std::panic::catch_unwind(std::panic::AssertUnwindSafe(|| live.dbg.continue_debugee_with_reason()));
                     match r {
